@@ -272,7 +272,7 @@ def run(args):
     N = 64 if quick else 96
     payloads = [("_factorize", N, None), ("_divisors", 48 if quick else 96, None), ("_factorize_imperfect", 36 if quick else 56, None)]
     for inner in (1, 2, 3, 4):
-        payloads.append(("gpfs", 48 if quick else 96, (False, inner)))
+        payloads.append(("gpfs", 48 if quick else 64, (False, inner)))
     for inner, Nq, Nt in ((1, 24, 36), (2, 36, 48), (3, 36, 54), (4, 48, 64)):
         payloads.append(("gpfs", Nq if quick else Nt, (True, inner)))
     Lmax, Nc = (3, 10) if quick else (4, 14)
@@ -291,7 +291,7 @@ def run(args):
                            "_mathfuncs._divisors", "_mathfuncs._count_factorizations"],
         bounds=dict(_factorize=f"n in 1..{N}", _divisors=f"n in 1..{48 if quick else 96}", _factorize_imperfect=f"n in 1..{36 if quick else 56}",
                     _count_factorizations=f"n in 1..{Nc} (1..9 for length 4), every perfect/imperfect pattern of length 2..{Lmax}",
-                    get_possible_factor_sizes="perfect: n in 1..%d, inner in 1..4; imperfect: (inner, n<=) in %s" % (48 if quick else 96, [(1, 24 if quick else 36), (2, 36 if quick else 48), (3, 36 if quick else 54), (4, 48 if quick else 64)]),
+                    get_possible_factor_sizes="perfect: n in 1..%d, inner in 1..4; imperfect: (inner, n<=) in %s" % (48 if quick else 64, [(1, 24 if quick else 36), (2, 36 if quick else 48), (3, 36 if quick else 54), (4, 48 if quick else 64)]),
                     outside="coarseness != 1; inner sizes that do not divide the outer size; sizes beyond the bounds"),
         assumptions=["math.ceil(n**0.5) == the integer r with (r-1)^2 < n <= r^2; math.ceil(a/b) == the integer c with (c-1)*b < a <= c*b (float exactness below 2^52)",
                      "oset/sorted/np.array keep the element set (membership is what is specified)"],
